@@ -64,7 +64,7 @@ func checkC05(c *Ctx, r *Report) {
 				}
 			}
 			var armEdges []CFGEdge
-			for _, b := range f.Blocks {
+			for _, b := range blocksDeep(f) {
 				i := ifOf(b)
 				if i == nil {
 					continue
@@ -242,7 +242,7 @@ func checkC05(c *Ctx, r *Report) {
 				continue
 			}
 			n++
-			allInstrs(f, func(in ssa.Instruction) {
+			allInstrsIn(f, func(in ssa.Instruction) {
 				call, ok := in.(*ssa.Call)
 				if !ok || calleeKey(call) != "builtin.copy" {
 					return
@@ -351,7 +351,7 @@ func checkC05(c *Ctx, r *Report) {
 			r3.guard(f, "take FD token", findInstrs(f, inc), "fdConsuming < fdLimit", edgeExcl(isFdC, isFdL, ordEQ, ordGT), nil)
 			// over the limit: queued, not started
 			var over []CFGEdge
-			for _, b := range f.Blocks {
+			for _, b := range blocksDeep(f) {
 				for s := range b.Succs {
 					if edgeExcl(isFdC, isFdL, ordLT)(b, s) {
 						over = append(over, CFGEdge{b, s})
@@ -459,7 +459,7 @@ func checkC05(c *Ctx, r *Report) {
 		r4.guard(f, "end the shared dial (close reqch / delete / cancel)", ends, "refCnt == 0", zero, nil)
 		// at zero all three happen
 		var zeroEdges []CFGEdge
-		for _, b := range f.Blocks {
+		for _, b := range blocksDeep(f) {
 			for s := range b.Succs {
 				if zero(b, s) {
 					zeroEdges = append(zeroEdges, CFGEdge{b, s})
